@@ -192,8 +192,12 @@ def b256_run(s, pos, out):
     return s[start + n:]
 
 
+LAST_MODES = set()   # non-ASCII modes the last decoded stream latched into
+
+
 def iso_decode(cw, strdec=False):
     """-> (bytes, ecis) or None"""
+    LAST_MODES.clear()
     cw = bytes(cw)
     out = bytearray()
     ecis = []
@@ -218,6 +222,8 @@ def iso_decode(cw, strdec=False):
             if r is None:
                 return None
             s, pos, mode = r
+            if mode != 'ascii':
+                LAST_MODES.add(mode)
             continue
         if mode == 'b256':
             rest = b256_run(s, pos, out)
